@@ -31,7 +31,8 @@ def main():
     if fast or rc:
         return rc
     import_rig()
-    for path in sorted(glob.glob(os.path.join(os.path.dirname(__file__), "props", "c*.py"))):
+    for path in sorted(glob.glob(os.path.join(os.path.dirname(__file__), "props", "c*.py"))) + \
+            [os.path.join(os.path.dirname(__file__), "props", "session.py")]:
         pid = os.path.basename(path)[:-3]
         mod = importlib.import_module("harness.props." + pid)
         if hasattr(mod, "selftest"):
